@@ -22,7 +22,10 @@ def main():
     a = ap.parse_args()
 
     warnings.filterwarnings("ignore")
-    from . import core
+    from . import core, cover
+
+    if os.environ.get("UXMON_COVER", "1") == "1":
+        cover.start()
 
     mod = importlib.import_module("uxmon.checks." + a.prop.lower())
     ctx = core.Ctx(a.prop, a.tier, a.seed, a.shard, a.nshards, replay=bool(a.replay))
@@ -47,7 +50,9 @@ def main():
             mod.finish(ctx)
     except BaseException as e:
         ctx.harness_error("worker", e)
-    core.jdump(ctx.result(), a.out)
+    res = ctx.result()
+    res["lines"] = cover.result()
+    core.jdump(res, a.out)
 
 
 if __name__ == "__main__":
